@@ -67,6 +67,182 @@ func (c *faultConn) SetWriteDeadline(time.Time) error { return nil }
 func extraWorkloads(r *mon.Run, rec *recorder) {
 	transientTimeouts(r, rec)
 	concurrentSends(r, rec)
+	hugeSends(r, rec)
+	otherPacketTypes(r, rec)
+	reconnects(r, rec)
+}
+
+// hugeSends: payloads far beyond the 17-bit length (around multiples of 16 MiB, where the flags
+// octet of a naive header computation wraps) must be refused, with nothing on the wire.
+func hugeSends(r *mon.Run, rec *recorder) {
+	sizes := []int{1<<24 + 5, 1<<24 + 0x1FFFF, 1 << 24, 1<<24 - 1}
+	if r.Thorough() {
+		sizes = append(sizes, 1<<25+7, 3<<24, 1<<26+0x10000)
+	}
+	for i, n := range sizes {
+		a, b := net.Pipe()
+		t := nbt.NewNBTTransportFromConn(a)
+		var got int64
+		done := make(chan struct{})
+		go func() {
+			defer close(done)
+			buf := make([]byte, 1<<16)
+			for {
+				k, err := b.Read(buf)
+				got += int64(k)
+				if err != nil {
+					return
+				}
+			}
+		}()
+		p := make([]byte, n)
+		var err error
+		pan, pv, st := mon.Guard(func() { _, err = t.Send(p) })
+		a.Close()
+		<-done
+		rec.Eval(1)
+		cs := map[string]any{"payload_len": n}
+		switch {
+		case pan:
+			rec.Violation(i, "Send:oversize:panic", sprintf("panic %v at %s", pv, mon.TopLibFrame(st)), cs)
+		case err == nil:
+			rec.Violation(i, "Send:oversize:accepted:huge", sprintf("Send of %d octets (beyond the 17-bit session length) returned nil; %d octets reached the wire", n, got), cs)
+		case got != 0:
+			rec.Violation(i, "Send:oversize:wire-bytes:huge", sprintf("Send of %d octets was refused but %d octets reached the wire", n, got), cs)
+		}
+		rec.Nontrivial(sprintf("huge|%d", n))
+	}
+}
+
+// otherPacketTypes: zero-length session packets of another type (keep-alive 0x85, positive
+// response 0x82) between session messages. Receive may report them as errors, but every message
+// it returns without error must be one the peer sent, in order — never a fabricated one.
+func otherPacketTypes(r *mon.Run, rec *recorder) {
+	for run := 0; run < r.Pick(60, 600); run++ {
+		rng := r.Rand(fmt.Sprintf("types|%d", run))
+		var stream []byte
+		var sent [][]byte
+		for k := 0; k < 2+rng.IntN(6); k++ {
+			switch rng.IntN(3) {
+			case 0:
+				stream = append(stream, []byte{0x85, 0, 0, 0}...)
+			case 1:
+				stream = append(stream, []byte{0x82, 0, 0, 0}...)
+			}
+			p := make([]byte, []int{0, 1, 5, 64, 300}[rng.IntN(5)])
+			for i := range p {
+				p[i] = byte(0x30 + k)
+			}
+			f, _ := refEncode(p)
+			stream = append(stream, f...)
+			sent = append(sent, p)
+		}
+		c := &faultConn{data: stream, failAt: len(stream) + 1, seg: 1 + rng.IntN(9)}
+		t := nbt.NewNBTTransportFromConn(c)
+		next := 0
+		for call := 0; call < 40; call++ {
+			var got []byte
+			var err error
+			pan, pv, st := mon.Guard(func() { got, err = t.Receive() })
+			rec.Eval(1)
+			if pan {
+				rec.Violation(run, "Receive:other-type:panic", sprintf("panic %v at %s", pv, mon.TopLibFrame(st)), map[string]any{"stream": mon.FullHex(stream)})
+				break
+			}
+			if err != nil {
+				if c.pos >= len(stream) {
+					break
+				}
+				continue
+			}
+			found := -1
+			for j := next; j < len(sent); j++ {
+				if bytes.Equal(sent[j], got) {
+					found = j
+					break
+				}
+			}
+			if found < 0 {
+				rec.Violation(run, "Receive:other-type:fabricated", sprintf("after a keep-alive/response packet Receive returned a %d-octet message with a nil error that the peer never sent (or sent earlier)", len(got)), map[string]any{"stream": mon.FullHex(stream)})
+				break
+			}
+			next = found + 1
+		}
+		rec.Nontrivial(sprintf("types|%d", run))
+	}
+}
+
+// reconnects: one transport object, connected to peer A over loopback TCP, receives one of two
+// coalesced frames, is closed and connected to peer B: the first message received from B must be
+// B's (nothing buffered from A may survive the reconnect).
+func reconnects(r *mon.Run, rec *recorder) {
+	serve := func(frames ...[]byte) (net.Listener, error) {
+		ln, err := net.Listen("tcp4", "127.0.0.1:0")
+		if err != nil {
+			return nil, err
+		}
+		go func() {
+			c, err := ln.Accept()
+			if err != nil {
+				return
+			}
+			var all []byte
+			for _, f := range frames {
+				all = append(all, f...)
+			}
+			c.Write(all) // one segment: frames arrive coalesced
+			time.Sleep(50 * time.Millisecond)
+			buf := make([]byte, 16)
+			c.SetReadDeadline(time.Now().Add(3 * time.Second))
+			c.Read(buf) // wait for the client to close
+			c.Close()
+		}()
+		return ln, nil
+	}
+	for run := 0; run < r.Pick(10, 80); run++ {
+		fa1, _ := refEncode([]byte(sprintf("A-first-%d", run)))
+		fa2, _ := refEncode([]byte(sprintf("A-second-%d-must-not-survive", run)))
+		fb1, _ := refEncode([]byte(sprintf("B-first-%d", run)))
+		la, err1 := serve(fa1, fa2)
+		lb, err2 := serve(fb1)
+		if err1 != nil || err2 != nil {
+			rec.Count("reconnect_scenarios_skipped", 1)
+			continue
+		}
+		t := nbt.NewNBTTransport()
+		var m1, m2 []byte
+		var e1, e2 error
+		pan, pv, st := mon.Guard(func() {
+			if err := t.Connect(net.IP{127, 0, 0, 1}, la.Addr().(*net.TCPAddr).Port); err != nil {
+				e1 = err
+				return
+			}
+			m1, e1 = t.Receive()
+			time.Sleep(20 * time.Millisecond) // let the second frame arrive
+			t.Close()
+			if err := t.Connect(net.IP{127, 0, 0, 1}, lb.Addr().(*net.TCPAddr).Port); err != nil {
+				e2 = err
+				return
+			}
+			m2, e2 = t.Receive()
+			t.Close()
+		})
+		la.Close()
+		lb.Close()
+		rec.Eval(1)
+		cs := map[string]any{"run": run}
+		switch {
+		case pan:
+			rec.Violation(run, "Receive:reconnect:panic", sprintf("panic %v at %s", pv, mon.TopLibFrame(st)), cs)
+		case e1 != nil || e2 != nil:
+			rec.Count("reconnect_scenarios_io_error", 1)
+		case string(m1) != sprintf("A-first-%d", run):
+			rec.Violation(run, "Receive:reconnect:first", sprintf("first message from peer A is %q", m1), cs)
+		case string(m2) != sprintf("B-first-%d", run):
+			rec.Violation(run, "Receive:reconnect:stale-bytes", sprintf("after Close and Connect to another peer the first message received is %q, the new peer sent %q", m2, sprintf("B-first-%d", run)), cs)
+		}
+		rec.Nontrivial(sprintf("reconnect|%d", run))
+	}
 }
 
 func transientTimeouts(r *mon.Run, rec *recorder) {
